@@ -78,6 +78,22 @@ pub fn run_shape<R: RecUni>(seed: u64, idx: u64, spec: &ShapeSpec, tier: Tier, o
     };
     let (hv, hinfo) = run(None);
     out.evals += 1;
+    // (a) lengths, from the packing alone (a short vector is refused by the runner before anything
+    // is checked, so this must not wait for an accepted run)
+    let packed = match &setup {
+        Setup::Uni(p, pis, b) => R::uni_pack(b, p, pis),
+        Setup::Batch(p, c, b) => R::batch_pack(b, p, c),
+    };
+    if let Ok((pp, pq)) = &packed {
+        if pp.len() != hinfo.public_len * d || pq.len() != hinfo.private_len * d {
+            out.violate(
+                "packed_length_mismatch".to_string(),
+                format!("packed lengths ({}, {}) words vs circuit expects ({}, {}) elements of degree {d}", pp.len(), pq.len(), hinfo.public_len, hinfo.private_len),
+                detail("lengths", json!({})),
+            );
+            return;
+        }
+    }
     if !hv.accepts() {
         out.count("honest_not_accepted_skipped");
         return;
